@@ -46,6 +46,13 @@ var Catalogue = []ReSpec{
 	{`a|`, []string{"", "a"}, []string{"b"}},
 	{`[a-f0-9]{3,5}`, []string{"abc", "12f", "abcde"}, []string{"ab", "xyz"}},
 	{`(b|bc)(c|d)`, []string{"bc", "bcd", "bcc", "bd"}, []string{"b", "bcdd"}},
+	// user groups under every regexp operator that can carry a sub-expression
+	{`([a-z][0-9]){2}`, []string{"a1b2", "x9y0"}, []string{"a1", "a1b", "a1b2c3"}},
+	{`(ab){1,2}`, []string{"ab", "abab"}, []string{"", "ababab", "a"}},
+	{`((a|b)c){2,}`, []string{"acbc", "acacbc"}, []string{"ac", "ab"}},
+	{`(x(y)?){2}`, []string{"xx", "xyx", "xyxy"}, []string{"x", "xyy"}},
+	{`(a)*(b)+(c)?`, []string{"b", "aabbc", "bc"}, []string{"a", "c", ""}},
+	{`[a-z]+(-[0-9]+)?`, []string{"ab", "ab-12"}, []string{"-12", "ab-"}},
 }
 
 // Idents are static literals; they include every regex-active identifier
